@@ -52,19 +52,22 @@ def run(ctx):
         ctx.sample(t[:400])
     if rejects:
         events = vf.read_ndjson(trace)
+        # re-drive the WHOLE run once more (state may be carried between histories inside the process) and require
+        # the same events to be rejected again
+        t2 = os.path.join(ctx.work, "hist-trace-again.ndjson")
+        ctx.vh(["drive-history", "histories=%d" % nh, "len=%d" % hl, "out=" + t2, "dir=" + tmp], timeout=3000)
+        n2, rj2 = ctx.validate_histories("Trace_History", t2, procs=8, per_job=(2 if quick else 4))
+        ev2 = vf.read_ndjson(t2)
+        again = {(ev2[r["l"] - 1]["h"], ev2[r["l"] - 1]["ev"], ev2[r["l"] - 1]["q"] or ev2[r["l"] - 1]["rid"]) for r in rj2}
         seen = set()
-        for rj in rejects[:40]:
+        for rj in rejects[:60]:
             e = events[rj["l"] - 1]
-            k = (e["h"], e["ev"])
+            k = (e["h"], e["ev"], e["q"] or e["rid"])
             if k in seen:
                 continue
             seen.add(k)
-            # re-drive exactly that history and see whether the same event is rejected again
-            t2 = os.path.join(ctx.work, "hist-replay-%d.ndjson" % e["h"])
-            ctx.vh(["drive-history", "histories=%d" % nh, "len=%d" % hl, "only=%d" % e["h"], "out=" + t2, "dir=" + tmp], timeout=3000)
-            n2, rj2 = ctx.validate_histories("Trace_History", t2, procs=1)
-            if not rj2:
-                raise vf.Inconclusive("rejection in history %d did not reproduce" % e["h"])
+            if k not in again:
+                raise vf.Inconclusive("rejection in history %d (%s %s) did not reproduce" % (e["h"], e["ev"], str(k[2])[:80]))
             ctx.report("history %d, event %s q=%s: answer %s but earlier/fresh answer %s" % (e["h"], e["ev"], e["q"] or e["rid"], e["a"][:300], str(rj["spec"])[:300]),
                        {"reexec": ["drive-history"], "history": e["h"], "histories": nh, "len": hl, "seed": ctx.seed, "event": e, "spec": rj["spec"]},
                        {"cause": e["ev"]})
@@ -77,7 +80,7 @@ def replay(ctx, path):
     tmp = os.path.join(ctx.work, "files")
     os.makedirs(tmp, exist_ok=True)
     t2 = os.path.join(ctx.work, "hist-replay.ndjson")
-    ctx.vh(["drive-history", "histories=%d" % obj["histories"], "len=%d" % obj["len"], "only=%d" % obj["history"], "out=" + t2, "dir=" + tmp])
+    ctx.vh(["drive-history", "histories=%d" % obj["histories"], "len=%d" % obj["len"], "out=" + t2, "dir=" + tmp])
     n2, rj2 = ctx.validate_histories("Trace_History", t2, procs=1)
     print(json.dumps({"rejected_events": rj2[:5]}, indent=1)[:2000])
     return 1 if rj2 else 0
